@@ -55,6 +55,7 @@ func runC09(c *Check, a *Analysis) {
 	p := c.P
 	ls := a.Locks()
 	sc := siteCounter{}
+	ruleUserBytesFresh(c, a, "R-USER-BYTES-FRESH")
 
 	// ---- R-ACK-FIRST
 	c.Rule("R-ACK-FIRST", "every `go` start of a stream handler (a goroutine that invokes Func.ValueCall) is preceded on every path by the open acknowledgement (sendResponse)", 1)
@@ -445,6 +446,7 @@ func runC10(c *Check, a *Analysis) {
 	sc := siteCounter{}
 	ruleLockBalance(c, a, "R-LOCK-BALANCE", "stream.mut", "Conn.mutex", "Server.mutex")
 	ruleStreamCond(c, a, "R-STREAM-COND")
+	ruleWaitUnderFlag(c, a, "R-WAIT-UNDER-FLAG")
 	ruleSweepKeepsStreams(c, a, "R-SWEEP-KEEPS-STREAMS")
 	rulePollEOF(c, a, "R-POLL-EOF")
 	ruleSchedNil(c, a, "R-SCHED-NIL")
